@@ -48,7 +48,8 @@ def gen_c03(rng, tier):
 
 def gen_c04(rng, tier):
     return (gen2.gen_pointwise(rng, B(tier, 600, 12000), gen.BINOPS_REL, followups=True, requery_p=0.3) +
-            gen2.gen_tolerance_block(rng, B(tier, 60, 1000), ["rel"]) + gen2.gen_decimal_block(rng, B(tier, 100, 1500)))
+            gen2.gen_tolerance_block(rng, B(tier, 60, 1000), ["rel"]) + gen2.gen_decimal_block(rng, B(tier, 100, 1500)) +
+            gen2.gen_rel_constants(rng, B(tier, 48, 720)))
 
 
 def gen_c05(rng, tier):
@@ -119,7 +120,7 @@ def gen_c17(rng, tier):
             gen2.gen_c08(rng, k) + gen2.gen_c09(rng, k) + gen2.gen_c10(rng, k) + gen2.gen_c11(rng, k) +
             gen2.gen_c18(rng, k) + gen2.gen_c19(rng, k) + gen2.gen_c20(rng, k))
     return (gen2.across_domains(base, rng, per=B(tier, 2, 8)) + gen2.gen_overflow_block(rng, B(tier, 60, 600)) +
-            gen2.gen_single_stepped(rng, B(tier, 36, 360), gen.DOMS_ALL))
+            gen2.gen_single_stepped(rng, B(tier, 36, 360), gen.DOMS_ALL) + gen2.gen_c11_periods(rng, B(tier, 24, 240)))
 
 
 def gen_c18(rng, tier):
